@@ -12,8 +12,9 @@ CONSTANTS
   MaxAllocs = %(maxallocs)d
   MaxPending = %(maxpending)d
   MaxCount = %(maxcount)d
+  Allocators = {%(allocators)s}
 INVARIANTS TypeOK ExactlyDesignated ReportsUndone PendingLive ClearRestores CountdownFires CountdownNotEarly NotOomRestores CountResetZeroes
-PROPERTIES OomMeansNull CountsCAllocs StatsLeaveInjection
+PROPERTIES OomMeansNull CountsCAllocs StatsLeaveInjection SimulationKeepsAllocator ServedByInstalled
 CHECK_DEADLOCK FALSE
 """
 GEN = """SPECIFICATION GSpec
@@ -24,6 +25,7 @@ CONSTANTS
   MaxAllocs = 1000000
   MaxPending = %(maxpending)d
   MaxCount = 1000000
+  Allocators = {"failable", "plain"}
   D = %(D)d
   Vias = {%(vias)s}
   Fns = {%(fns)s}
@@ -39,6 +41,7 @@ CONSTANTS
   MaxAllocs = 1
   MaxPending = 1
   MaxCount = 1
+  Allocators = {"failable", "plain"}
 %(tail)s
 CHECK_DEADLOCK FALSE
 """
@@ -47,50 +50,139 @@ CF = ["malloc", "calloc", "strdup", "strndup"]
 FOPS = ["failnum", "failat", "alloc", "checkdone", "clear"]            # the failable allocator
 COPS = ["countdown", "setoom", "setnotoom", "c"]                        # the C-level injection
 SOPS = ["countreset", "getcount"]                                       # the malloc statistics that count the same C allocations
+IOPS = ["install"]                                                      # the test changes its malloc allocator (failable <-> plain), outside the simulation
+AGAIN = ["setoom-again", "setnotoom-any"]                               # set_out_of_memory also while already out of memory, set_not_out_of_memory also when
+                                                                        # nothing is armed (Gen: "setoom" / "setnotoom" = only when they change something)
 q = lambda names: ", ".join('"%s"' % x for x in names)
 
 
-def random_exec(rng, nops, nloc=4):
+class CSim:
+    """What a test knows about the C-level simulation from its own calls (Countdown / SetOOM / SetNotOOM / CAlloc / Install of FailAlloc.tla,
+    without the results): the random driver uses it to place `install` outside the simulation, the divergence key to name the class of the
+    history - how often the simulation was entered (set_out_of_memory, countdown(0), a countdown expiring) since it was last cleared."""
+
+    def __init__(self):
+        self.cd, self.oom, self.entries, self.armed, self.cleared, self.sel, self.idle_clears = -1, False, 0, "", None, "failable", 0
+
+    def enter(self):
+        self.oom = True
+        self.entries += 1
+
+    def step(self, ln):
+        op = ln[0]
+        if op == "countdown":
+            self.cd, self.armed, self.cleared = int(ln[3]), "countdown", None
+            if self.cd == 0:
+                self.enter()
+        elif op == "setoom":
+            self.armed, self.cleared = "oom", None
+            self.enter()
+        elif op == "setnotoom":
+            self.cleared = self.entries
+            self.idle_clears += 1 if self.entries == 0 else 0
+            self.cd, self.oom, self.entries, self.armed = -1, False, 0, ""
+        elif op == "install":
+            self.sel = str(ln[1])
+        elif op == "countreset" and self.armed:
+            self.armed = self.armed.split("+")[0] + "+countreset"
+        elif op == "c" and self.cd > 0:
+            self.cd -= 1
+            if self.cd == 0:
+                self.enter()
+
+    def label(self):
+        cap = lambda n: str(n) if n < 2 else "2+"
+        parts = []
+        if self.armed:
+            parts.append(self.armed + ("+entered=" + cap(self.entries) if self.entries >= 2 else ""))
+        elif self.cleared is not None:
+            parts.append("cleared-after-entries=" + cap(self.cleared))
+        if self.sel != "failable":
+            parts.append("installed=" + self.sel)
+        if self.idle_clears and not (not self.armed and self.cleared == 0):
+            parts.append("cleared-unentered-before")
+        return ":".join(parts)
+
+
+def random_exec(rng, nops, nloc=4, profile="mixed"):
     """Seeded random workload: designations (global and by location, several per location, some coinciding, some in the
-    past), allocations mixing locations and doors, countdowns of every small value, checks and clears, and the malloc
-    statistics read / reset in between."""
+    past), allocations mixing locations and doors, countdowns of every small value, checks and clears, the malloc
+    statistics read / reset in between, and the test changing its malloc allocator (failable / plain) outside the simulation.
+    profile "c" = the C interface dominates: the simulation is entered by every door, re-entered before it is cleared (countdowns re-armed after
+    they expired, set_out_of_memory / countdown(0) while out of memory), cleared (also when it was never entered) and allocated after."""
     ex = []
+    sim = CSim()
+
+    def add(ln):
+        ex.append(ln)
+        sim.step(ln)
     for _ in range(nops):
         r = rng.random()
         loc = rng.randrange(1, nloc + 1)
+        other = rng.choice(["failable", "plain", "plain"] if sim.sel == "failable" else ["failable", "failable", "plain"])
+        if profile == "c":
+            if r < 0.06:
+                add(["failnum", "", 0, rng.choice([0, 1, 1, 2, 2, 3, 4, 6])])
+            elif r < 0.10:
+                add(["failat", "", loc, rng.choice([1, 1, 2, 2, 3])])
+            elif r < 0.14:
+                add(["alloc", rng.choice(["direct", "new", "newarray"]), loc, 0])
+            elif r < 0.17:
+                add(["countreset", "", 0, 0])
+            elif r < 0.19:
+                add(["getcount", "", 0, 0])
+            elif r < 0.21:
+                add(["checkdone", "", 0, 0])
+            elif r < 0.23:
+                add(["clear", "", 0, 0])
+            elif r < 0.38:
+                add(["countdown", "", 0, rng.choice([-1, 0, 0, 1, 1, 1, 2, 2, 3])])
+            elif r < 0.45:
+                add(["setoom", "", 0, 0])
+            elif r < 0.55:
+                add(["setnotoom", "", 0, 0])
+            elif r < 0.60 and not sim.oom:
+                add(["install", other, 0, 0])
+            else:
+                add(["c", rng.choice(CF), loc, 0])
+            continue
         if r < 0.10:
-            ex.append(["failnum", "", 0, rng.choice([0, 1, 1, 2, 2, 3, 4, 6, 9])])
+            add(["failnum", "", 0, rng.choice([0, 1, 1, 2, 2, 3, 4, 6, 9])])
         elif r < 0.24:
-            ex.append(["failat", "", loc, rng.choice([0, 1, 1, 2, 2, 3, 4])])
-        elif r < 0.53:
-            ex.append(["alloc", rng.choice(["direct", "new", "newarray"]), loc, 0])
+            add(["failat", "", loc, rng.choice([0, 1, 1, 2, 2, 3, 4])])
+        elif r < 0.51:
+            add(["alloc", rng.choice(["direct", "new", "newarray"]), loc, 0])
+        elif r < 0.53 and not sim.oom:
+            add(["install", other, 0, 0])
         elif r < 0.57:
-            ex.append(["countreset", "", 0, 0])
+            add(["countreset", "", 0, 0])
         elif r < 0.60:
-            ex.append(["getcount", "", 0, 0])
+            add(["getcount", "", 0, 0])
         elif r < 0.78:
-            ex.append(["c", rng.choice(CF), loc, 0])
+            add(["c", rng.choice(CF), loc, 0])
         elif r < 0.83:
-            ex.append(["checkdone", "", 0, 0])
+            add(["checkdone", "", 0, 0])
         elif r < 0.88:
-            ex.append(["clear", "", 0, 0])
+            add(["clear", "", 0, 0])
         elif r < 0.94:
-            ex.append(["countdown", "", 0, rng.choice([-1, 0, 1, 1, 2, 2, 3, 5])])
+            add(["countdown", "", 0, rng.choice([-1, 0, 1, 1, 2, 2, 3, 5])])
         elif r < 0.96:
-            ex.append(["setoom", "", 0, 0])
+            add(["setoom", "", 0, 0])
         else:
-            ex.append(["setnotoom", "", 0, 0])
+            add(["setnotoom", "", 0, 0])
     return ex
 
 
 def history_class(ex, idx, loc):
     """The class of the history before call idx (an allocation at loc), which the key of a divergence names: how many
     location designations were placed since the last clear for this location / for other locations, how many global
-    ones, the C-level injection in force, and whether the malloc statistics were reset while it was in force."""
+    ones, the C-level injection in force (armed how, entered how often, the malloc statistics reset while it was in force) or
+    how often it had been entered when it was cleared, and the malloc allocator the test installed if not the failable one."""
     here = elsewhere = num = 0
-    cd = ""
+    sim = CSim()
     for ln in ex[:idx]:
         op = ln[0]
+        sim.step(ln)
         if op == "clear":
             here = elsewhere = num = 0
         elif op == "failnum":
@@ -100,15 +192,7 @@ def history_class(ex, idx, loc):
                 here += 1
             else:
                 elsewhere += 1
-        elif op == "countdown":
-            cd = "countdown"
-        elif op == "setoom":
-            cd = "oom"
-        elif op == "setnotoom":
-            cd = ""
-        elif op == "countreset" and cd:
-            cd = cd.split("+")[0] + "+countreset"
-    return here, elsewhere, num, cd
+    return here, elsewhere, num, sim.label()
 
 
 def run(ctx):
@@ -136,10 +220,17 @@ def run(ctx):
         return ctx.finish("replay of one recorded execution", 1)
 
     # ---- leg 1: the specification satisfies the property (exhaustive, small constants)
-    mc = ({"locs": "1, 2", "ns": "1, 2", "cds": "0, 1, 2", "maxallocs": 3, "maxpending": 2, "maxcount": 2} if quick else
-          {"locs": "1, 2, 3", "ns": "1, 2, 3", "cds": "0, 1, 2", "maxallocs": 4, "maxpending": 2, "maxcount": 2})
-    r = ctx.model_check("FailAlloc", ctx.write_cfg("MC_FailAlloc", MC % mc), workers=8, timeout=1800, heap="12g")
-    ctx.notes["model"] = {"distinct_states": r.distinct, "depth": r.depth, "constants": mc}
+    # quick: both allocators on the small constants; thorough: the large constants with the failable allocator underneath, and both
+    # allocators (the simulation as a detour around whichever the test installed) on the small constants with the larger statistics bound
+    both = '"failable", "plain"'
+    small = {"locs": "1, 2", "ns": "1, 2", "cds": "0, 1, 2", "maxallocs": 3, "maxpending": 2, "maxcount": 1, "allocators": both}
+    mcs = ([("MC_FailAlloc", small)] if quick else
+           [("MC_FailAlloc", {"locs": "1, 2, 3", "ns": "1, 2, 3", "cds": "0, 1, 2", "maxallocs": 4, "maxpending": 2, "maxcount": 2, "allocators": '"failable"'}),
+            ("MC_FailAlloc_installed", dict(small, maxcount=2))])
+    ctx.notes["model"] = []
+    for (name, mc) in mcs:
+        r = ctx.model_check("FailAlloc", ctx.write_cfg(name, MC % mc), workers=8, timeout=1800, heap="12g")
+        ctx.notes["model"].append({"cfg": name, "distinct_states": r.distinct, "depth": r.depth, "constants": mc})
 
     # ---- leg 2: behaviours generated by TLC from the specification, executed on the real allocator / C interface
     nontrivial = set()
@@ -149,13 +240,27 @@ def run(ctx):
         # every workload of D calls on the failable allocator: each allocation point in turn designated
         ("bfs-failable", {"locs": "1, 2", "ns": "1, 2", "cds": "1", "maxpending": 2, "D": 4 if quick else 5, "vias": '"direct"', "fns": "", "ops": q(FOPS)}, None, None),
         # the C interface with the failable allocator underneath
-        ("bfs-c", {"locs": "1", "ns": "2", "cds": "0, 1, 2", "maxpending": 1, "D": 3 if quick else 4, "vias": '"new"', "fns": '"malloc", "strdup"',
-                   "ops": q(FOPS + COPS)}, None, None),
+        ("bfs-c", {"locs": "1", "ns": "1, 2", "cds": "0, 1, 2", "maxpending": 1, "D": 3 if quick else 4, "vias": '"new"', "fns": '"malloc", "strdup"',
+                   "ops": q(FOPS + COPS + AGAIN)}, None, None),
         # the C-level injection interleaved with the malloc statistics that count the same allocations: every history of D calls
         ("bfs-cstat", {"locs": "1", "ns": "1", "cds": "1, 2, 3", "maxpending": 1, "D": 4 if quick else 5, "vias": '"direct"', "fns": '"malloc", "calloc"',
                        "ops": q(COPS + SOPS)}, None, None),
-        ("sim", {"locs": "1, 2, 3", "ns": "0, 1, 2, 3, 4", "cds": "0, 1, 2, 3", "maxpending": 4, "D": 30, "vias": allv, "fns": allf, "ops": q(FOPS + COPS + SOPS)},
+        # entering the simulation again before it is cleared, clearing it (entered or not) and allocating after: every history of D calls
+        # (set_out_of_memory / set_not_out_of_memory whenever, countdown -1 / 0 / 1 re-armed, one C function, one location); thorough: also
+        # with the test changing its malloc allocator (failable <-> plain) in between
+        ("bfs-reenter", {"locs": "1", "ns": "1", "cds": "0, 1", "maxpending": 1, "D": 5 if quick else 6, "vias": '"direct"', "fns": '"malloc"',
+                         "ops": q(["countdown", "c"] + AGAIN)}, None, None),
+    ] + ([] if quick else [
+        ("bfs-reenter-install", {"locs": "1", "ns": "1", "cds": "0, 1", "maxpending": 1, "D": 5, "vias": '"direct"', "fns": '"malloc"',
+                                 "ops": q(["countdown", "c"] + AGAIN + IOPS)}, None, None),
+    ]) + [
+        ("sim", {"locs": "1, 2, 3", "ns": "0, 1, 2, 3, 4", "cds": "0, 1, 2, 3", "maxpending": 4, "D": 30, "vias": allv, "fns": allf,
+                 "ops": q(FOPS + COPS + SOPS + IOPS + AGAIN)},
          25 if quick else 250, 36),
+        # the same, the C interface only (designations by global index underneath): longer stays in and around the simulation
+        ("sim-c", {"locs": "1, 2", "ns": "1, 2", "cds": "0, 1, 2", "maxpending": 2, "D": 24, "vias": '"direct"', "fns": allf,
+                   "ops": q(["failnum", "clear"] + COPS + IOPS + AGAIN)},
+         15 if quick else 150, 30),
     ]
     for (lab, gen, sim, depth) in gens:
         g = ctx.tlc("Gen_FailAlloc", ctx.write_cfg("Gen_FailAlloc_" + lab, GEN % gen), workers=8, simulate=sim, depth=depth, timeout=1800, heap="8g")
@@ -171,7 +276,7 @@ def run(ctx):
 
     # ---- leg 3: seeded random workloads, validated against the specification
     nexec, nops = (40, 60) if quick else (400, 120)
-    execs = [random_exec(ctx.rng, nops) for _ in range(nexec)]
+    execs = [random_exec(ctx.rng, nops, profile="c" if i % 2 else "mixed") for i in range(nexec)]
     ctx.sample({"source": "seeded random driver", "execution": ["\t".join(map(str, l)) for l in execs[0][:14]]})
     conform(ctx, "random", execs, harness, "Trace_FailAlloc", tcfg, pcfg, key_fn, tlc_timeout=2400, max_report=3)
     ctx.evaluations += sum(len(e) for e in execs)
@@ -179,13 +284,19 @@ def run(ctx):
         nontrivial.add(json.dumps(e))
     return ctx.finish(
         rule="executions = TLC-generated behaviours of FailAlloc (exhaustive to depth D: failable allocator over 2 locations x n<=2; C interface "
-             "with countdowns 0..2 over malloc/strdup; C-level injection x malloc statistics (count reset / get count) with countdowns -1,1..3 over malloc/calloc; simulation to depth 30 over 3 locations, n<=4, all doors and C functions) plus seeded "
-             "random workloads (both with the statistics calls interleaved), each run on the real FailableMemoryAllocator / cpputest_malloc_* under ASan/UBSan; distinct = distinct call "
+             "with countdowns 0..2 over malloc/strdup; C-level injection x malloc statistics (count reset / get count) with countdowns -1,1..3 over malloc/calloc; the simulation entered again before "
+             "it is cleared (set_out_of_memory whenever, countdowns -1/0/1 re-armed), cleared whether entered or not and allocated after, in the thorough tier also with the test's malloc allocator changing (failable / plain); "
+             "simulation to depth 30 over 3 locations, n<=4, all doors and C functions, and to depth 24 over the C interface alone) plus seeded "
+             "random workloads (mixed and C-interface-heavy profiles, both with the statistics calls and allocator changes interleaved), each run on the real FailableMemoryAllocator / cpputest_malloc_* under "
+             "ASan/UBSan - the harness installs the test's malloc allocator only where the script says so, never after set_not_out_of_memory; distinct = distinct call "
              "sequences; non-trivial = contains an injection and an allocation",
         distinct_nontrivial=len(nontrivial), exhaustive=False,
         assumptions=["a location designation counts the allocations made at its location from the moment it is placed; a global designation counts from the last clear",
                      "when several pending designations name the same allocation the specification accepts any non-empty subset of them being used up",
                      "while the C interface is out of memory the test's malloc allocator (the failable one) is not consulted",
+                     "cpputest_malloc_set_not_out_of_memory leaves the test's malloc allocator in charge - the one in place before the simulation, also when the simulation was entered "
+                     "several times or not at all; the test changes its malloc allocator only outside the simulation (installing one over the null allocator is left open); which allocator "
+                     "object is current is logged and predicted as a diagnostic only, the results of the allocations decide",
                      "reading or resetting the malloc statistics (cpputest_malloc_get_count / cpputest_malloc_count_reset) does not move a running countdown; the "
                      "value of the counter is logged and predicted as a diagnostic only (the statement does not say what it counts)",
                      "only NULL / non-NULL (std::bad_alloc for new) and the outcome of checkAllFailedAllocsWereDone are compared"])
